@@ -24,6 +24,7 @@ let rec err_class (e : err) : string =
   | ECtx -> "canceled"
   | EUnexpected -> "err:other"
   | EPanic -> "panic"
+  | ENoAmmoText -> "err:other"
   | ELoad e' -> (match err_class e' with "panic" -> "panic" | c -> c)  (* %w keeps errors.Is *)
 
 let out_class (o : outcome) : string =
